@@ -147,8 +147,11 @@ func genSched(tier string, seed uint64) {
 	}
 	// payloads larger than 64 KiB delivered in 4 KiB chunks with an empty read before every chunk (and whole); headers that
 	// announce such payloads with nothing, or only a little, behind them
-	for _, n := range []int{65536, 65537, 70000} {
+	for _, n := range []int{65536, 65537, 70000, 1 << 20, 1<<20 + 1, 3<<20 + 5} {
 		for _, major := range []byte{0x40, 0x60} {
+			if n > 100000 && major == 0x40 {
+				continue
+			}
 			hx := fmt.Sprintf("%x", headBytes(major, uint64(n), 0)) + strings.Repeat("61", n)
 			var c []int
 			for left := n + 5; left > 0; left -= 4096 {
